@@ -628,6 +628,7 @@ theorem zlibcut_needs_minimum (encoded : Bytes) (limit : Int) (r : CutResult)
   all_goals
     rename_i r' hcut _
     have := cut_needs_minimum _ _ _ _ hcut
+    simp only [Int.ofNat_eq_coe] at this
     omega
 
 end WuffsVerif.Props.C16
